@@ -10,6 +10,7 @@ import (
 	"path/filepath"
 	"strings"
 	"sync"
+	"sync/atomic"
 	"time"
 )
 
@@ -192,18 +193,46 @@ func Discharge(obls []*Oblig, dir string, timeoutS int, par int, unanimous bool)
 				r.Status, r.Solver, r.Model, r.Ms = st, sv, md, ms
 				return
 			}
-			// undecided in aggregate: decide each path separately (all must be unsat)
+			// undecided in aggregate: decide each path separately (all must be unsat), 4 at a time
 			total := ms
 			solversUsed := map[string]bool{}
+			type pres struct {
+				st, sv, md string
+				ms         int64
+			}
+			results := make([]pres, len(o.disj))
+			var pwg sync.WaitGroup
+			psem := make(chan struct{}, 4)
+			var failed int32
 			for k, dj := range o.disj {
-				sc := Script([]*Term{dj}, true, "")
-				st, sv, md, ms := solveRace(dir, fmt.Sprintf("%s_p%d", base, k), sc, timeoutS, unanimous)
-				total += ms
-				if st != "unsat" {
-					r.Status, r.Solver, r.Model, r.Ms = st, sv, md, total
+				pwg.Add(1)
+				go func(k int, dj *Term) {
+					defer pwg.Done()
+					psem <- struct{}{}
+					defer func() { <-psem }()
+					if atomic.LoadInt32(&failed) != 0 {
+						results[k] = pres{st: "skipped"}
+						return
+					}
+					sc := Script([]*Term{dj}, true, "")
+					st, sv, md, ms := solveRace(dir, fmt.Sprintf("%s_p%d", base, k), sc, timeoutS, unanimous)
+					results[k] = pres{st, sv, md, ms}
+					if st != "unsat" {
+						atomic.StoreInt32(&failed, 1)
+					}
+				}(k, dj)
+			}
+			pwg.Wait()
+			for _, pr := range results {
+				total += pr.ms
+				if pr.st == "skipped" {
+					continue
+				}
+				if pr.st != "unsat" {
+					r.Status, r.Solver, r.Model, r.Ms = pr.st, pr.sv, pr.md, total
 					return
 				}
-				solversUsed[sv] = true
+				solversUsed[pr.sv] = true
 			}
 			var names []string
 			for n := range solversUsed {
